@@ -91,6 +91,11 @@ MUTANTS = [
     dict(name='c01-invoker-cancel-no-release', prop='C01', clause='D7', edits=[
         ('include/oneapi/tbb/parallel_invoke.h', "    task* cancel(execution_data& ed) override {\n        parent_wait_ctx.release(ed);\n        return nullptr;\n    }\n\n    const Function& my_function;",
          "    task* cancel(execution_data& ed) override {\n        (void)ed;\n        return nullptr;\n    }\n\n    const Function& my_function;")]),
+
+    dict(name='c01-pool-private-by-foreign', prop='C01', clause='D10', edits=[
+        ('src/tbb/small_object_pool.cpp', "        if (td.my_small_object_pool == this) {\n            obj->next = m_private_list;", "        if (td.my_small_object_pool == this || m_public_counter.load(std::memory_order_relaxed) == 0) {\n            obj->next = m_private_list;")]),
+    dict(name='c01-pool-public-stale-link', prop='C01', clause='D10', edits=[
+        ('src/tbb/small_object_pool.cpp', "                obj->next = old_public_list;\n                if (m_public_list.compare_exchange_strong(old_public_list, obj)) {", "                if (!obj->next) obj->next = old_public_list;\n                if (m_public_list.compare_exchange_strong(old_public_list, obj)) {")]),
     # ---------------------------------------------------------------- C02
     dict(name='c02-prepare_wait-no-fence', prop='C02', clause='D1', edits=[
         (CM_H, "        // Prepare wait guarantees Write Read memory barrier.\n        // In C++ only full fence covers this type of barrier.\n        atomic_fence_seq_cst();\n", "")]),
@@ -158,6 +163,11 @@ MUTANTS = [
     dict(name='c02-delegated-notify-before-release', prop='C02', clause='D4', edits=[
         ('src/tbb/arena.cpp', "        m_wait_ctx.release(); // must precede the wakeup\n        m_monitor.notify([this] (std::uintptr_t ctx) {\n            return ctx == std::uintptr_t(&m_delegate);\n        }); // do not relax, it needs a fence!",
          "        m_monitor.notify([this] (std::uintptr_t ctx) {\n            return ctx == std::uintptr_t(&m_delegate);\n        }); // do not relax, it needs a fence!\n        m_wait_ctx.release(); // must precede the wakeup")]),
+
+    dict(name='c02-shutdown-notify-before-quit', prop='C02', clause='D7', edits=[
+        ('src/tbb/private_server.cpp', "    state_t prev_state = my_state.exchange(st_quit, std::memory_order_acq_rel);\n", "    my_thread_monitor.notify();\n    state_t prev_state = my_state.exchange(st_quit, std::memory_order_acq_rel);\n")]),
+    dict(name='c02-worker-state-store', prop='C02', clause='D7', edits=[
+        ('src/tbb/private_server.cpp', "            if (!my_state.compare_exchange_strong(state, st_normal)) {", "            if (my_state.load() != state || (my_state.store(st_normal), false)) {")]),
     # ---------------------------------------------------------------- C03
     dict(name='c03-store-unconditional', prop='C03', clause='D1', edits=[
         (TDH, "            if (ed.context->cancel_group_execution()) {\n                /* We are the first to signal cancellation, so store the exception that caused it. */\n                ed.context->my_exception.store(tbb_exception_ptr::allocate(), std::memory_order_release);\n            }",
